@@ -80,6 +80,22 @@ func (v *Validator) Valid(n parsley.Node, e *gram.Expr, pos int) bool {
 		return v.fail("expected EMPTY at %d, got %T", pos, n)
 	case gram.OpSuppress:
 		return v.Valid(n, e.Kids[0], pos)
+	case gram.OpLit:
+		k := gram.LitKinds[e.C]
+		if LitOracle == nil {
+			return true
+		}
+		wantEnd, val, verdict := LitOracle(int(e.C), in, pos)
+		if verdict == 2 {
+			return true
+		}
+		if verdict != 1 || n.Token() != k.Token || end != wantEnd {
+			return v.fail("expected a %s literal at %d-%d, got %s at %d-%d", k.Token, pos, wantEnd, n.Token(), pos, end)
+		}
+		if lit, ok := n.(parsley.LiteralNode); !ok || lit.Value() != val {
+			return v.fail("%s node at %d-%d does not carry the value %v", k.Token, pos, end, val)
+		}
+		return true
 	case gram.OpNT:
 		key := fmt.Sprintf("%d/%d/%p", e.NT, pos, n)
 		if _, isEmpty := n.(ast.EmptyNode); isEmpty {
